@@ -823,6 +823,17 @@ func (p *Prog) Sources(v ssa.Value) []ssa.Value {
 					}
 				}
 			}
+			// parameter of a library function that is called (or started with go / defer) at exactly one place and never
+			// used as a value: the argument at that place
+			if site := p.onlySite(x.Parent()); site != nil && p.throughParams {
+				cc := site.Common()
+				for i, prm := range x.Parent().Params {
+					if prm == x && i < len(cc.Args) {
+						walk(cc.Args[i], d+1)
+						return
+					}
+				}
+			}
 			out = append(out, v)
 		case *ssa.Call:
 			if k := TransparentCallee(x); k != nil {
@@ -1114,4 +1125,99 @@ func (p *Prog) nilness(v ssa.Value) (nonNil bool, known bool) {
 		}
 	}
 	return false, false
+}
+
+// onlySite returns the only call site (call, go or defer with a static callee) of a library function that is not
+// otherwise referenced (as a value, a method value or through an interface), or nil.
+func (p *Prog) onlySite(fn *ssa.Function) ssa.CallInstruction {
+	if fn == nil || !p.IsLib(Canon(fn)) {
+		return nil
+	}
+	if p.siteIndex == nil {
+		p.siteIndex = map[*ssa.Function][]ssa.CallInstruction{}
+		p.valueUse = map[*ssa.Function]bool{}
+		for _, f := range p.AllFuncs() {
+			for _, b := range f.Blocks {
+				for _, in := range b.Instrs {
+					var callee *ssa.Function
+					if ci, ok := in.(ssa.CallInstruction); ok {
+						if c := ci.Common().StaticCallee(); c != nil && !ci.Common().IsInvoke() {
+							callee = Canon(c)
+							p.siteIndex[callee] = append(p.siteIndex[callee], ci)
+						}
+					}
+					for _, op := range in.Operands(nil) {
+						if op == nil || *op == nil {
+							continue
+						}
+						if g, ok := (*op).(*ssa.Function); ok {
+							g = Canon(g)
+							if mc, isMC := in.(*ssa.MakeClosure); isMC && mc.Fn == *op {
+								// a literal that is only ever called where it stands (go/defer/call of the literal)
+								onlyCalled := mc.Referrers() != nil
+								if onlyCalled {
+									for _, ref := range *mc.Referrers() {
+										if _, isDbg := ref.(*ssa.DebugRef); isDbg {
+											continue
+										}
+										if ci, isCI := ref.(ssa.CallInstruction); !isCI || ci.Common().Value != ssa.Value(mc) {
+											onlyCalled = false
+										} else {
+											for _, a := range ci.Common().Args {
+												if a == ssa.Value(mc) {
+													onlyCalled = false
+												}
+											}
+										}
+									}
+								}
+								if !onlyCalled {
+									p.valueUse[g] = true
+								}
+								continue
+							}
+							if g != callee || !isCallValue(in, *op) {
+								p.valueUse[g] = true
+							}
+						}
+					}
+				}
+			}
+		}
+	}
+	fn = Canon(fn)
+	if p.valueUse[fn] || len(p.siteIndex[fn]) != 1 {
+		return nil
+	}
+	// exported functions and methods can be called from outside the package
+	if fn.Object() != nil && fn.Object().Exported() {
+		return nil
+	}
+	return p.siteIndex[fn][0]
+}
+
+func isCallValue(in ssa.Instruction, op ssa.Value) bool {
+	ci, ok := in.(ssa.CallInstruction)
+	if !ok {
+		return false
+	}
+	if ci.Common().Value != op {
+		return false
+	}
+	for _, a := range ci.Common().Args {
+		if a == op {
+			return false
+		}
+	}
+	return true
+}
+
+// SourcesDeep is Sources that also looks through the parameters of library functions with a single call site
+// (`go x.wait(x.stop, x.done)`: inside wait, stop is x.stop as read at that go statement).
+func (p *Prog) SourcesDeep(v ssa.Value) []ssa.Value {
+	saved := p.throughParams
+	p.throughParams = true
+	out := p.Sources(v)
+	p.throughParams = saved
+	return out
 }
